@@ -301,6 +301,12 @@ impl Action {
         self.inner.is_cancelled()
     }
 
+    /// If this is a periodic action, returns its repetition period; otherwise
+    /// returns `None`.
+    pub(crate) fn period(&self) -> Option<Duration> {
+        self.inner.period()
+    }
+
     /// If this is a periodic action, returns a boxed clone of this action and
     /// its repetition period; otherwise returns `None`.
     pub(crate) fn next(&self) -> Option<(Action, Duration)> {
@@ -371,6 +377,12 @@ impl GlobalScheduler {
         action: Action,
         origin_id: usize,
     ) -> Result<(), SchedulingError> {
+        // A periodic action with a null period would be re-scheduled for the
+        // same time forever once it is due.
+        if action.period().is_some_and(|period| period.is_zero()) {
+            return Err(SchedulingError::NullRepetitionPeriod);
+        }
+
         // The scheduler queue must always be locked when reading the time,
         // otherwise the following race could occur:
         // 1) this method reads the time and concludes that it is not too late
@@ -560,6 +572,12 @@ pub(crate) trait ActionInner: Send + 'static {
     /// its repetition period; otherwise returns `None`.
     fn next(&self) -> Option<(Box<dyn ActionInner>, Duration)>;
 
+    /// If this is a periodic action, returns its repetition period; otherwise
+    /// returns `None`.
+    fn period(&self) -> Option<Duration> {
+        None
+    }
+
     /// Returns a boxed future that performs the action.
     fn into_future(self: Box<Self>) -> Pin<Box<dyn Future<Output = ()> + Send>>;
 
@@ -661,6 +679,9 @@ where
 
         Some((event, self.period))
     }
+    fn period(&self) -> Option<Duration> {
+        Some(self.period)
+    }
     fn into_future(self: Box<Self>) -> Pin<Box<dyn Future<Output = ()> + Send>> {
         Box::pin((self.gen)())
     }
@@ -758,6 +779,9 @@ where
         ));
 
         Some((event, self.period))
+    }
+    fn period(&self) -> Option<Duration> {
+        Some(self.period)
     }
     fn into_future(self: Box<Self>) -> Pin<Box<dyn Future<Output = ()> + Send>> {
         Box::pin((self.gen)(self.event_key))
